@@ -422,6 +422,33 @@ func allSSAFuncs(sp *ssa.Package) []*ssa.Function {
 // ssaFuncName renders parent$n names relative to the package.
 func ssaFuncName(f *ssa.Function) string {
 	s := f.RelString(f.Pkg.Pkg)
+	// canonical name of a renamed anchor function (see roles.go)
+	root := f
+	for root.Parent() != nil {
+		root = root.Parent()
+	}
+	if obj, ok := root.Object().(*types.Func); ok && obj.Pkg() != nil {
+		actual := shortKey(objKey(obj))
+		if canon := canonKey(obj.Pkg(), actual); canon != actual {
+			// actual: interp.Recv.name -> SSA spelling (*Recv).name or name
+			spell := func(key string) string {
+				parts := strings.Split(strings.TrimPrefix(key, "interp."), ".")
+				if len(parts) == 2 {
+					if sig, ok := obj.Type().(*types.Signature); ok && sig.Recv() != nil {
+						if _, isPtr := sig.Recv().Type().(*types.Pointer); isPtr {
+							return "(*" + parts[0] + ")." + parts[1]
+						}
+					}
+					return "(" + parts[0] + ")." + parts[1]
+				}
+				return parts[0]
+			}
+			rootName := root.RelString(root.Pkg.Pkg)
+			if strings.HasPrefix(s, rootName) {
+				s = spell(canon) + s[len(rootName):]
+			}
+		}
+	}
 	return s
 }
 
@@ -521,7 +548,7 @@ func describeValue(v ssa.Value) string {
 
 func c08R2(ic *IC, r *Report) {
 	fns := allSSAFuncs(ic.SP)
-	runCfg := ic.SP.Func("runCfg")
+	runCfg := ic.ssaFunc("runCfg")
 	if runCfg == nil {
 		r.Errorf("anchor not resolved: function runCfg (the execution loop) not found")
 		return
@@ -549,7 +576,7 @@ func c08R2(ic *IC, r *Report) {
 					d := describeValue(o)
 					okOrigin := false
 					if call, ok := o.(*ssa.Call); ok {
-						if f := call.Call.StaticCallee(); f != nil && f.Pkg == ic.SP && (f.Name() == "newFrame" || ssaFuncName(f) == "(*frame).clone") {
+						if f := call.Call.StaticCallee(); f != nil && f.Pkg == ic.SP && (ssaFuncName(f) == "newFrame" || ssaFuncName(f) == "(*frame).clone") {
 							okOrigin = true
 						}
 					}
@@ -581,7 +608,7 @@ func c08R2(ic *IC, r *Report) {
 	c08GoArgs(ic, r)
 	// newFrame and clone must allocate: every return value is a fresh &frame{} composite.
 	for _, name := range []string{"newFrame"} {
-		f := ic.SP.Func(name)
+		f := ic.ssaFunc(name)
 		if f == nil {
 			r.Errorf("anchor not resolved: %s", name)
 			continue
@@ -603,7 +630,7 @@ func c08R2(ic *IC, r *Report) {
 		r.Check(fresh, "R08.2", name+"/allocates", ic.pos(f.Pos()), "returns a freshly allocated frame", name+" may return a frame that is not freshly allocated")
 	}
 	// the data vector of a new frame is a fresh slice as well
-	if f := ic.SP.Func("newFrame"); f != nil {
+	if f := ic.ssaFunc("newFrame"); f != nil {
 		freshData := false
 		for _, b := range f.Blocks {
 			for _, ins := range b.Instrs {
